@@ -20,18 +20,32 @@ theorem crash_atomic (tgt tmp : P) (htt : tgt ≠ tmp) (new : Bytes) (chunks : L
   subst hchunks
   exact saveRun_prefix htt chunks fault fs p hp
 
-/-- For every single I/O failure (at the open, at any write — with any partial effect —, at the close, the
-rename or the remove): when the call returns the target is the complete previous or the complete new
-snapshot, and the temporary file is gone. -/
+/-- For every I/O failure (at the open, at any write — with any partial effect, followed by whatever the file object
+still writes or fails to write when it is closed —, at the close, the rename or the remove): when the call returns the
+target is the complete previous or the complete new snapshot, and the temporary file is gone.  (`hcl`: the clean-up
+itself does not fail on top of the first failure; for that case see `double_fault_target_complete`.) -/
 theorem fault_atomic (tgt tmp : P) (htt : tgt ≠ tmp) (new : Bytes) (chunks : List Bytes)
-    (hchunks : chunks.flatten = new) (fault : Option Fault) (fs : FS P) :
+    (hchunks : chunks.flatten = new) (fault : Option Fault) (fs : FS P)
+    (hcl : ∀ f, fault = some f → f.cleanup = false) :
     FaultSafe fs tgt tmp new (saveRun tgt tmp chunks fault).evs := by
   subst hchunks
   obtain ⟨h1, h2, h3⟩ := saveRun_final htt chunks fault fs
-  refine ⟨?_, h1⟩
-  cases hr : (saveRun tgt tmp chunks fault).renamed
-  · exact Or.inl (h3 hr)
-  · exact Or.inr (h2 hr)
+  refine ⟨?_, h1 ?_⟩
+  · cases hr : (saveRun tgt tmp chunks fault).renamed
+    · exact Or.inl (h3 hr)
+    · exact Or.inr (h2 hr)
+  · cases fault with
+    | none => rfl
+    | some f => exact hcl f rfl
+
+/-- A second fault in the clean-up path: something failed, and the `os.remove(tmpfile)` of the `finally` fails as well.
+The target is still the complete previous or the complete new snapshot when the call returns (and at every crash point:
+`crash_atomic` has no hypothesis on the fault); only the temporary file may stay behind.  It does no harm: the next save
+truncates it (`failed_save_retried` and `believed_on_disk` hold for every initial content of the temporary file). -/
+theorem double_fault_target_complete (tgt tmp : P) (htt : tgt ≠ tmp) (new : Bytes) (chunks : List Bytes)
+    (hchunks : chunks.flatten = new) (fault : Option Fault) (fs : FS P) :
+    CompleteSnapshot (applyEvs fs (saveRun tgt tmp chunks fault).evs tgt) (fs tgt) new :=
+  crash_atomic tgt tmp htt new chunks hchunks fault fs _ (List.prefix_refl _)
 
 /-- A call that returns normally has put the new snapshot in place; one that did not get the snapshot in
 place raises (so the caller can never take a failed save for a successful one). -/
@@ -445,6 +459,59 @@ theorem save_leaves_current_file (env : Env P N V) (htt : env.tgt ≠ env.tmp) (
   rw [hs] at hraised ⊢
   exact doSave_current env ps htt hc w.fs w.ms f hgood hraised
 
+/-- The automatic save stays hooked to the parameter: after start-up and any history - I/O faults in any of the saves,
+automatic ones included, whose exceptions `announceUpdate` swallows - `saveParameters` is registered for exactly the
+parameters with `persistent='auto'`. -/
+theorem auto_save_stays_registered (env : Env P N V) (ps : List (Param V)) (wd0 : List (String × V)) (fs0 : FS P)
+    (f0 : Option Fault) (hist : List (Act V × Option Fault)) :
+    let o := startUp env ps wd0 (fs0 env.tgt) f0
+    let w := World.run env ⟨o.ms, applyEvs fs0 o.evs⟩ hist
+    w.ms.hooks = autoNames ps := by
+  intro o w
+  show (World.run env ⟨o.ms, applyEvs fs0 o.evs⟩ hist).ms.hooks = autoNames ps
+  rw [world_run_hooks]
+  exact startUp_hooks env ps wd0 _ f0
+
+/-- "a save that failed is attempted again by the next save", for the automatic saves: in any state reached from start-up
+by any history (so after any number of automatic or explicit saves that failed at any operation), an undisturbed update
+of a parameter with `persistent='auto'`, while no write is pending, leaves a file that reads back as the current values,
+the new one included (or as something Python-`==` to them: then nothing had to be written). -/
+theorem failed_auto_save_retried (env : Env P N V) (htt : env.tgt ≠ env.tmp) (ps : List (Param V))
+    (wd0 : List (String × V)) (fs0 : FS P) (f0 : Option Fault) (hist : List (Act V × Option Fault))
+    (hc : Codec env ps) (p : Param V) (hp : p ∈ ps) (hpers : p.persistent = true) (hauto : p.auto = true) (v : V) :
+    let o := startUp env ps wd0 (fs0 env.tgt) f0
+    let w := World.run env ⟨o.ms, applyEvs fs0 o.evs⟩ hist
+    let s := act env w.ms (w.fs env.tgt) (.set p.name v) none
+    w.ms.writeDict = [] →
+      s.ms.params = setValue w.ms.params p.name v ∧
+      (loadRaw env.parse (applyEvs w.fs s.evs env.tgt) = exportAll env s.ms.params ∨
+       env.same (exportAll env s.ms.params) (loadRaw env.parse (applyEvs w.fs s.evs env.tgt)) = true) := by
+  intro o w s hwd
+  have hgood : Good env ps w.fs w.ms :=
+    world_run_good env ps htt hc hist _ (startUp_good env ps htt hc wd0 fs0 f0)
+  have hhooks : w.ms.hooks = autoNames ps := auto_save_stays_registered env ps wd0 fs0 f0 hist
+  have hnames : w.ms.params.map (·.name) = ps.map (·.name) := by
+    show (World.run env ⟨o.ms, applyEvs fs0 o.evs⟩ hist).ms.params.map (·.name) = ps.map (·.name)
+    rw [world_run_names]
+    exact startUp_names env ps wd0 _ f0
+  have hsome : (findParam w.ms.params p.name).isSome = true :=
+    findParam_isSome _ _ (by rw [hnames]; exact List.mem_map.mpr ⟨p, hp, rfl⟩)
+  obtain ⟨q, hq⟩ := Option.isSome_iff_exists.mp hsome
+  have hcont : w.ms.hooks.contains p.name = true := by rw [hhooks]; exact mem_autoNames hp hpers hauto
+  have h1 : Good env ps w.fs { w.ms with params := setValue w.ms.params p.name v } :=
+    ⟨hgood.disk, hgood.shape.trans (setValue_shape _ _ _)⟩
+  have hs : s.evs = (doSave env { w.ms with params := setValue w.ms.params p.name v } none).evs ∧
+      s.ms.params = setValue w.ms.params p.name v := by
+    have hmem : p.name ∈ w.ms.hooks := by simpa using hcont
+    simp [s, act, announce, hq, hmem, saveParameters, hwd, doSave]
+  have hraised : (doSave env { w.ms with params := setValue w.ms.params p.name v } none).raised = false := by
+    simp only [doSave, saveStep]
+    split
+    · rfl
+    · exact (saveRun_none env.tgt env.tmp _).2.2
+  rw [hs.1, hs.2]
+  exact ⟨rfl, doSave_current env ps htt hc w.fs _ none h1 hraised⟩
+
 /-- The reload that follows start-up directly (the first poll finds the hardware power-cycled).  Whatever the file of
 the earlier run held and whatever the configuration gives now, a start-up that returned normally followed by
 `loadParameters()` (with or without an I/O fault in the save it triggers) leaves every persistent parameter with the
@@ -580,7 +647,7 @@ hits the second write after one byte; the crash comes after 4 operations: the ta
 the temporary file holds the partial text `[2,3]` -/
 example :
     let fs : FS Nat := fun p => if p = 0 then some [1] else none
-    let evs := (saveRun (P := Nat) 0 1 [[2], [3, 4]] (some ⟨2, [3]⟩)).evs
+    let evs := (saveRun (P := Nat) 0 1 [[2], [3, 4]] (some ⟨2, [3], [], false⟩)).evs
     evs.length = 5 ∧ applyEvs fs (evs.take 3) 0 = some [1] ∧ applyEvs fs (evs.take 3) 1 = some [2, 3]
       ∧ applyEvs fs evs 0 = some [1] ∧ applyEvs fs evs 1 = none := by
   decide
@@ -597,7 +664,7 @@ example :
 example :
     let same : Nat → Nat → Bool := fun a b => a == b
     let ser : Nat → List Bytes := fun d => [[d.toUInt8]]
-    let o1 := saveStep (P := Nat) same ser 0 1 7 8 (some ⟨3, []⟩)
+    let o1 := saveStep (P := Nat) same ser 0 1 7 8 (some ⟨3, [], [], false⟩)
     let o2 := saveStep (P := Nat) same ser 0 1 o1.believed 8 none
     o1.raised = true ∧ o1.believed = 7 ∧ o2.evs.length = 5 ∧ o2.believed = 8 := by
   decide
@@ -617,7 +684,7 @@ example :
       | [(_, .null)] => [[1]]
       | _ => [[2]]
     let parse : Bytes → Option (JV Nat) := fun b => if b = [1] then some (.obj d1) else if b = [2] then some (.obj d2) else none
-    let hist : List (Dict Nat × Option Fault) := [(d1, some ⟨3, []⟩), (d2, none)]
+    let hist : List (Dict Nat × Option Fault) := [(d1, some ⟨3, [], [], false⟩), (d2, none)]
     (∀ a ∈ hist, parse (ser a.1).flatten = some (.obj a.1)) ∧
     (hist.foldl (SaveWorld.step (P := Nat) same ser 0 1) ⟨loadRaw parse none, fun _ => none⟩).believed.length = 1 ∧
     (hist.foldl (SaveWorld.step (P := Nat) same ser 0 1) ⟨loadRaw parse none, fun _ => none⟩).fs 0 = some [2] := by
@@ -672,9 +739,9 @@ example :
 /-- `reload_restores` on two non-trivial states: the file holds a = 9: restored (through the write method); the file
 holds a = 200, which the write method refuses: the parameter keeps 5 (and the module goes on) -/
 example :
-    let ms : MState Nat Nat := ⟨exParams, [("b", 1)], [], []⟩
+    let ms : MState Nat Nat := ⟨exParams, [("b", 1)], [], [], []⟩
     valueOf (loadParameters exEnv ms (some (List.replicate 9 1)) none).ms.params "a" = some 9 ∧
-    valueOf (loadParameters exEnv ms (some (List.replicate 200 1)) (some ⟨2, []⟩)).ms.params "a" = some 5 ∧
+    valueOf (loadParameters exEnv ms (some (List.replicate 200 1)) (some ⟨2, [], [], false⟩)).ms.params "a" = some 5 ∧
     (loadParameters exEnv ms (some (List.replicate 9 1)) none).writes = [("a", 9)] := by
   refine ⟨by decide +kernel, by decide +kernel, by decide +kernel⟩
 
@@ -684,9 +751,9 @@ example :
     let fs0 : FS Nat := fun p => if p = 0 then some [1, 1, 1] else none
     let o := startUp exEnv exParams [("a", 5)] (fs0 exEnv.tgt) none
     ∀ p ∈ o.ms.params, p.persistent = true →
-      valueOf (loadParameters exEnv o.ms (applyEvs fs0 o.evs exEnv.tgt) (some ⟨1, [1]⟩)).ms.params p.name = some p.value := by
+      valueOf (loadParameters exEnv o.ms (applyEvs fs0 o.evs exEnv.tgt) (some ⟨1, [1], [], false⟩)).ms.params p.name = some p.value := by
   intro fs0 o
-  exact (reload_after_startup_keeps_values exEnv exLaws.1 exParams [("a", 5)] fs0 none (some ⟨1, [1]⟩) exLaws.2.1 exCodec
+  exact (reload_after_startup_keeps_values exEnv exLaws.1 exParams [("a", 5)] fs0 none (some ⟨1, [1], [], false⟩) exLaws.2.1 exCodec
     exLaws.2.2.1 exLaws.2.2.2.1 exLaws.2.2.2.2.1 (by decide +kernel) (fun p _ _ => exLaws.2.2.2.2.2 _ _)).1
 
 /-- `reload_from_this_run` applied in that scenario to an arbitrary history; and a concrete history in which the reload
@@ -727,11 +794,59 @@ example :
 example (held : String → List Nat) (hist : List (Act Nat × Option Fault)) (fs0 : FS Nat) :
     ReloadRestores exEnv.parse exEnv.imp exEnv.wval (some (List.replicate 9 1))
       (exParams.map (fun p => ⟨p.name, p.persistent, p.hasWrite, p.value, held p.name,
-        (valueOf (loadParameters exEnv ⟨exParams, [("b", 1)], [], []⟩ (some (List.replicate 9 1)) none).ms.params p.name).getD p.value⟩)) ∧
-    (let o := startUp exEnv exParams [("a", 5)] (fs0 exEnv.tgt) (some ⟨3, []⟩)
+        (valueOf (loadParameters exEnv ⟨exParams, [("b", 1)], [], [], []⟩ (some (List.replicate 9 1)) none).ms.params p.name).getD p.value⟩)) ∧
+    (let o := startUp exEnv exParams [("a", 5)] (fs0 exEnv.tgt) (some ⟨3, [], [], false⟩)
      let w := World.run exEnv ⟨o.ms, applyEvs fs0 o.evs⟩ hist
      loadRaw exEnv.parse (w.fs exEnv.tgt) = w.ms.believed) :=
-  ⟨reload_restores exEnv ⟨exParams, [("b", 1)], [], []⟩ _ none held exLaws.2.1 exLaws.2.2.1 exLaws.2.2.2.1,
-   believed_on_disk_world exEnv exLaws.1 exParams [("a", 5)] fs0 (some ⟨3, []⟩) hist exCodec⟩
+  ⟨reload_restores exEnv ⟨exParams, [("b", 1)], [], [], []⟩ _ none held exLaws.2.1 exLaws.2.2.1 exLaws.2.2.2.1,
+   believed_on_disk_world exEnv exLaws.1 exParams [("a", 5)] fs0 (some ⟨3, [], [], false⟩) hist exCodec⟩
+
+/-- `auto_save_stays_registered` / `failed_auto_save_retried` on a non-trivial history: "a" is saved automatically.  The
+automatic save of a := 9 fails at the rename (operation 3 of 5): the file keeps 5, the exception is swallowed, nobody
+calls `saveParameters()`; then a read error of "a" is announced (the callback cannot take it: swallowed as well).  The callback
+is still registered, and the next change (a := 11) performs the five operations
+again and leaves the file that reads back 11 - obtained from the theorem, whose hypotheses all hold. -/
+example :
+    let fs0 : FS Nat := fun _ => none
+    let o := startUp exEnv exAuto [] (fs0 exEnv.tgt) none
+    let w := World.run exEnv ⟨o.ms, applyEvs fs0 o.evs⟩ [(.set "a" 9, some ⟨3, [], [], false⟩), (.seterr "a", none)]
+    let s := act exEnv w.ms (w.fs exEnv.tgt) (.set "a" 11) none
+    w.ms.writeDict = [] ∧ w.fs 0 = some (List.replicate 5 1) ∧ w.fs 1 = none ∧ valueOf w.ms.params "a" = some 9 ∧
+    w.ms.hooks = ["a"] ∧ s.evs.length = 5 ∧ applyEvs w.fs s.evs 0 = some (List.replicate 11 1) ∧
+    loadRaw exEnv.parse (applyEvs w.fs s.evs exEnv.tgt) = exportAll exEnv s.ms.params := by
+  refine ⟨by decide +kernel, by decide +kernel, by decide +kernel, by decide +kernel, ?_, by decide +kernel,
+    by decide +kernel, ?_⟩
+  · exact auto_save_stays_registered exEnv exAuto [] (fun _ => none) none [(.set "a" 9, some ⟨3, [], [], false⟩), (.seterr "a", none)]
+  · have h := (failed_auto_save_retried exEnv exLaws.1 exAuto [] (fun _ => none) none [(.set "a" 9, some ⟨3, [], [], false⟩), (.seterr "a", none)]
+      exAutoCodec ⟨"a", true, true, false, false, false, 5⟩ (by simp [exAuto]) rfl rfl 11 (by decide +kernel)).2
+    rcases h with h | h
+    · exact h
+    · simp [exEnv] at h
+
+/-- a failing write after which the file object, closed on the way out, writes once more what it still holds and fails
+again with the rest (`after`: the disk is full): the events are those of `failedWrite`, the target is untouched at every
+crash point, the temporary file is gone -/
+example :
+    let fs : FS Nat := fun p => if p = 0 then some [9] else none
+    let r := saveRun (P := Nat) 0 1 [[2, 3], [4]] (some ⟨1, [2], [([2, 3], false), ([], true)], false⟩)
+    r.evs.length = 6 ∧ r.raised = true ∧ CrashSafe fs 0 [2, 3, 4] r.evs ∧ FaultSafe fs 0 1 [2, 3, 4] r.evs ∧
+    applyEvs fs (r.evs.take 4) 1 = some [2, 2, 3] := by
+  refine ⟨by decide +kernel, by decide +kernel, ?_, ?_, by decide +kernel⟩
+  · exact crash_atomic 0 1 (by decide) [2, 3, 4] [[2, 3], [4]] rfl _ _
+  · exact fault_atomic 0 1 (by decide) [2, 3, 4] [[2, 3], [4]] rfl _ _ (by intro f hf; cases hf; rfl)
+
+/-- `double_fault_target_complete` on a concrete run: the rename fails (operation 4) and so does the remove of the clean-up.
+The call raises, the target still holds the previous snapshot, the complete temporary file stays behind - and the next,
+undisturbed save puts the new snapshot in place and leaves no temporary file. -/
+example :
+    let fs : FS Nat := fun p => if p = 0 then some [9] else none
+    let r := saveRun (P := Nat) 0 1 [[2, 3], [4]] (some ⟨4, [], [], true⟩)
+    let fs1 := applyEvs fs r.evs
+    let r2 := saveRun (P := Nat) 0 1 [[2, 3], [4]] none
+    r.raised = true ∧ r.evs.length = 6 ∧ fs1 0 = some [9] ∧ fs1 1 = some [2, 3, 4] ∧
+    CompleteSnapshot (fs1 0) (fs 0) [2, 3, 4] ∧
+    applyEvs fs1 r2.evs 0 = some [2, 3, 4] ∧ applyEvs fs1 r2.evs 1 = none := by
+  refine ⟨by decide +kernel, by decide +kernel, by decide +kernel, by decide +kernel, ?_, by decide +kernel, by decide +kernel⟩
+  exact double_fault_target_complete 0 1 (by decide) [2, 3, 4] [[2, 3], [4]] rfl _ _
 
 end Frappy.Props.C17
